@@ -54,6 +54,11 @@ func c15scenario(c c15cfg) *explore.Scenario {
 					if c.setter == "rate" {
 						rate2 = c.rate / 4
 						f.Set(vnet.TBFRate(rate2))
+					} else if c.setter == "burst-down-up" {
+						// lowered, then restored with the option Set returned: the larger value governs throughout
+						prev := f.Set(vnet.TBFMaxBurst(c.burst / 4))
+						zzvsched.Sleep(time.Millisecond)
+						f.Set(prev)
 					} else {
 						burst2 = c.burst / 4
 						f.Set(vnet.TBFMaxBurst(burst2))
@@ -246,6 +251,7 @@ func init() {
 					}
 					out = append(out, c15scenario(c15cfg{rate: r, burst: b, queue: 50000, n: n - 1, setter: "rate", bound: 1}))
 					out = append(out, c15scenario(c15cfg{rate: r, burst: b, queue: 50000, n: n - 1, setter: "burst", bound: 1}))
+					out = append(out, c15scenario(c15cfg{rate: r, burst: b, queue: 50000, n: n - 1, setter: "burst-down-up", bound: 1}))
 				}
 			}
 			// long regular streams: gaps that give a fractional per-arrival credit in every direction
